@@ -230,4 +230,6 @@ def run(tier='quick', repo=None):
     if rep.count(status=HOLDS) != len([o for o in rep.obs if o.status != OOS]):
         rep.level = 'other'
     rep.assumptions = ['enum udict_type values and the initialisers are those of the parsed tree (config.h of the tree)']
+    from rules import c10model
+    c10model.run_model(rep, repo, tier)
     return rep
